@@ -38,8 +38,11 @@ type ViolationRec struct {
 	LogHash string            `json:"log_hash"`
 	Trace   []string          `json:"trace,omitempty"`
 	Tags    string            `json:"build_tags,omitempty"`
-	Shrunk  bool              `json:"shrunk,omitempty"`
-	OrigLen int               `json:"orig_tape_len,omitempty"`
+	// Prefix: seeds of the episodes that ran in the same process since the last
+	// forced GC before this one (their effect on object pools is part of the run)
+	Prefix  []uint64 `json:"prefix_episode_seeds,omitempty"`
+	Shrunk  bool     `json:"shrunk,omitempty"`
+	OrigLen int      `json:"orig_tape_len,omitempty"`
 }
 
 type Result struct {
@@ -175,6 +178,8 @@ func explore() {
 	seenOracle := map[string]int{}
 	t0 := realNow()
 	leakedTotal := 0
+	gcEvery := envU64("VSIM_GC_EVERY", 1)
+	var window []uint64
 	for i := uint64(0); i < count; i++ {
 		if budget > 0 && realNow()-t0 > budget {
 			break
@@ -184,7 +189,15 @@ func explore() {
 		if cur != "" {
 			os.WriteFile(cur, []byte(fmt.Sprintf(`{"property":%q,"episode_seed":%d,"episode_index":%d}`, prop, seed, idx)), 0o644)
 		}
-		gcBetween()
+		if i%gcEvery == 0 {
+			gcBetween()
+			window = window[:0]
+		}
+		if os.Getenv("VSIM_MEMSTATS") != "" && i%100 == 0 {
+			var ms runtime.MemStats
+			runtime.ReadMemStats(&ms)
+			fmt.Fprintf(os.Stderr, "episode %d heap=%dKB objects=%d goroutines=%d\n", i, ms.HeapAlloc/1024, ms.HeapObjects, runtime.NumGoroutine())
+		}
 		ep, leak := runEpisode(prop, seed, core.NewTape(seed), params, keepLogs)
 		res.Episodes++
 		res.Steps += ep.S.Steps
@@ -210,7 +223,7 @@ func explore() {
 			if seenOracle[ep.Viol.Oracle] < 2 && len(res.Violations) < maxViol {
 				seenOracle[ep.Viol.Oracle]++
 				res.Violations = append(res.Violations, ViolationRec{Prop: prop, Oracle: ep.Viol.Oracle, Msg: ep.Viol.Msg, Seed: seed, Index: idx,
-					Tape: ep.Tape.Recorded(), Params: params, LogHash: fmt.Sprintf("%016x", ep.LogHash())})
+					Tape: ep.Tape.Recorded(), Params: params, LogHash: fmt.Sprintf("%016x", ep.LogHash()), Prefix: append([]uint64(nil), window...)})
 			} else {
 				seenOracle[ep.Viol.Oracle]++
 			}
@@ -227,6 +240,7 @@ func explore() {
 			res.Leak = true
 			break
 		}
+		window = append(window, seed)
 		if leak {
 			res.Leak = true
 			res.Infra = append(res.Infra, fmt.Sprintf("episode %d seed %d: goroutines could not be drained; worker recycled", idx, seed))
@@ -261,12 +275,15 @@ func replay() {
 		os.Exit(2)
 	}
 	gcBetween()
+	for _, ps := range v.Prefix {
+		runEpisode(v.Prop, ps, core.NewTape(ps), v.Params, false)
+	}
 	tape := core.ReplayTape(v.Tape)
 	if v.Tape == nil {
 		tape = core.NewTape(v.Seed) // crash replay: only the seed is known
 	}
 	ep, _ := runEpisode(v.Prop, v.Seed, tape, v.Params, true)
-	out := ViolationRec{Prop: v.Prop, Seed: v.Seed, Index: v.Index, Tape: ep.Tape.Recorded(), Params: v.Params, LogHash: fmt.Sprintf("%016x", ep.LogHash()), Trace: ep.Log()}
+	out := ViolationRec{Prop: v.Prop, Seed: v.Seed, Index: v.Index, Tape: ep.Tape.Recorded(), Params: v.Params, LogHash: fmt.Sprintf("%016x", ep.LogHash()), Trace: ep.Log(), Prefix: v.Prefix}
 	if ep.Viol != nil {
 		out.Oracle, out.Msg = ep.Viol.Oracle, ep.Viol.Msg
 	}
@@ -293,6 +310,9 @@ func shrink() {
 		}
 		runs++
 		gcBetween()
+		for _, ps := range v.Prefix {
+			runEpisode(v.Prop, ps, core.NewTape(ps), v.Params, false)
+		}
 		ep, leak := runEpisode(v.Prop, v.Seed, core.ReplayTape(tape), v.Params, false)
 		if leak {
 			runs = budget
